@@ -43,7 +43,10 @@ lines.append("Each sub-agent saw only the text of one property and a scratch "
              "random ranges almost never produce; round 8 (S8-*) required "
              "state that outlives one call (module / class-level caches, "
              "mutated defaults, long-lived objects, files of an earlier run). "
-             "160 changes in total, 2 of "
+             "Round 9 (S9-*) put the defect into the plumbing between the "
+             "user and the algorithm (option parsing and forwarding, "
+             "defaults, info fields read from the wrong scale, factories, "
+             "exit statuses). 180 changes in total, 2 of "
              "them rejected as outside the input domain (marked); "
              "the 'caught by' column says when a check had to be "
              "strengthened first.\n")
